@@ -88,6 +88,14 @@ class Model(HoloPyObject):
                 raise ValueError(msg)
             indices.append(self._parameter_names.index(par))
         indices.sort()
+        if new_name is not None:
+            other_names = [name for index, name in
+                           enumerate(self._parameter_names)
+                           if index not in indices]
+            if new_name in other_names:
+                msg = ("Cannot name tied parameter {}. Another parameter "
+                       "already has that name").format(new_name)
+                raise ValueError(msg)
         for index in indices[:0:-1]:
             del(self._parameters[index])
             del(self._parameter_names[index])
